@@ -11,6 +11,50 @@ def LS.total (s : LS) : Nat := s.pos + s.src.length
 /-- a `Number` token holds at least one digit and fits a `usize` (what `get_numeric` guarantees since the repair of D2) -/
 def NumOK (t : Token) : Prop := t.kind = .number → t.value ≠ [] ∧ ParseWord.digitsToNat t.value < 2 ^ 64
 
+/-- the sign of a feature token: `+`, `-`, an alpha letter, or `-` and an alpha letter -/
+def ModOK (m : Text) : Prop :=
+  m = [43] ∨ m = [45] ∨ ∃ c, (isGreek c || isUpper c) = true ∧ (m = [c] ∨ m = [45, c])
+
+/-- what the parser relies on, token by token: a token other than `Eol`/`Comment` has a non-empty value; a number is
+    made of digits; a diacritic token indexes the table; a feature token is `tone: digits` or a row of the feature table
+    with a sign -/
+def TokX (t : Token) : Prop :=
+  (t.kind ≠ .eol → t.kind ≠ .comment → t.value ≠ []) ∧
+  (t.kind = .number → t.value.all isDigit = true) ∧
+  (∀ i, t.kind = .diacritic i → i < Gen.diacritics.length) ∧
+  (∀ k v, t.kind = .feature k v →
+     (k = "Supr" ∧ v = "Tone" ∧ t.value ≠ [] ∧ t.value.all isDigit = true) ∨
+     ((∃ names, (k, v, names) ∈ Gen.featNames) ∧ ModOK t.value))
+
+/-- a kind that is neither a number, a diacritic nor a feature -/
+def Plain (k : TK) : Prop := k ≠ .number ∧ (∀ i, k ≠ .diacritic i) ∧ (∀ a b, k ≠ .feature a b)
+
+theorem tokX_plain (k : TK) (v : Text) (a b : Nat) (hp : Plain k) (hv : v ≠ []) : TokX ⟨k, v, a, b⟩ :=
+  ⟨fun _ _ => hv, fun h => absurd h hp.1, fun i h => absurd h (hp.2.1 i), fun x y h => absurd h (hp.2.2 x y)⟩
+
+theorem tokX_number (v : Text) (a b : Nat) (hv : v ≠ []) (hd : v.all isDigit = true) : TokX ⟨.number, v, a, b⟩ :=
+  ⟨fun _ _ => hv, fun _ => hd, fun i (h : TK.number = TK.diacritic i) => TK.noConfusion h,
+   fun k w (h : TK.number = TK.feature k w) => TK.noConfusion h⟩
+
+theorem tokX_comment (v : Text) (a b : Nat) : TokX ⟨.comment, v, a, b⟩ :=
+  ⟨fun _ h => absurd rfl h, fun (h : TK.comment = TK.number) => TK.noConfusion h,
+   fun i (h : TK.comment = TK.diacritic i) => TK.noConfusion h, fun k w (h : TK.comment = TK.feature k w) => TK.noConfusion h⟩
+
+theorem tokX_diacritic (i : Nat) (v : Text) (a b : Nat) (hv : v ≠ []) (hi : i < Gen.diacritics.length) : TokX ⟨.diacritic i, v, a, b⟩ :=
+  ⟨fun _ _ => hv, fun (h : TK.diacritic i = TK.number) => TK.noConfusion h,
+   fun j (h : TK.diacritic i = TK.diacritic j) => by cases h; exact hi,
+   fun k w (h : TK.diacritic i = TK.feature k w) => TK.noConfusion h⟩
+
+theorem tokX_cardinal (v : Text) (a b : Nat) (hv : v ≠ []) : TokX ⟨.cardinal, v, a, b⟩ :=
+  tokX_plain _ _ _ _ ⟨by simp, by simp, by simp⟩ hv
+
+theorem tokX_feature (k w : String) (v : Text) (a b : Nat) (hv : v ≠ [])
+    (h : (k = "Supr" ∧ w = "Tone" ∧ v ≠ [] ∧ v.all isDigit = true) ∨ ((∃ names, (k, w, names) ∈ Gen.featNames) ∧ ModOK v)) :
+    TokX ⟨.feature k w, v, a, b⟩ :=
+  ⟨fun _ _ => hv, fun (h' : TK.feature k w = TK.number) => TK.noConfusion h',
+   fun i (h' : TK.feature k w = TK.diacritic i) => TK.noConfusion h',
+   fun k' w' (h' : TK.feature k w = TK.feature k' w') => by cases h'; exact h⟩
+
 structure Good (s : LS) (t : Token) (s' : LS) : Prop where
   start_eq : t.start = s.pos
   stop_eq : t.stop = s'.pos
@@ -18,6 +62,7 @@ structure Good (s : LS) (t : Token) (s' : LS) : Prop where
   progress : s'.src.length < s.src.length
   not_eol : t.kind ≠ .eol
   num_ok : NumOK t
+  tok_ok : TokX t
 
 /-- the error's span starts at or after the lexer position and ends at most one past the end of the line -/
 def ErrIn (s : LS) (e : LErr) : Prop := s.pos ≤ e.start ∧ e.start ≤ e.stop ∧ e.stop ≤ s.total + 1
@@ -73,10 +118,12 @@ theorem trimWs_spec (s : LS) :
 /-! ### the recognisers -/
 
 theorem emit1_spec (k : TK) (v : Text) (s s0 : LS) (h : s.src ≠ []) (hk : k ≠ .eol)
-    (hp : s.pos = s0.pos) (hs : s.src = s0.src) (hn : k ≠ .number := by simp) : StepSpec s0 (emit1 k v s0.pos s) := by
+    (hp : s.pos = s0.pos) (hs : s.src = s0.src) (hn : k ≠ .number := by simp)
+    (htok : ∀ a b, TokX ⟨k, v, a, b⟩ := by intros; exact tokX_plain _ _ _ _ (by simp [Plain]) (by simp)) :
+    StepSpec s0 (emit1 k v s0.pos s) := by
   obtain ⟨s', he, hpos, hsrc, htot, hlen⟩ := advance_ok s h
   simp only [emit1, he, bind, Outcome.bind, pure, StepSpec]
-  refine ⟨rfl, rfl, ?_, ?_, hk, fun h => absurd h hn⟩
+  refine ⟨rfl, rfl, ?_, ?_, hk, fun h => absurd h hn, htok _ _⟩
   · simp only [LS.total] at htot ⊢; rw [htot, hp, hs]
   · rw [← hs]; omega
 
@@ -98,7 +145,8 @@ theorem getBracket_spec (s : LS) (h : s.src ≠ []) : StepSpec s (getBracket s) 
         simp only [LS.next] at hn
         subst hn
         simp only [LS.advance, emit1, bind, Outcome.bind, pure, StepSpec]
-        exact ⟨rfl, rfl, by simp only [LS.total, List.length_cons]; omega, by simp only [List.length_cons]; omega, by simp, by simp [NumOK]⟩
+        exact ⟨rfl, rfl, by simp only [LS.total, List.length_cons]; omega, by simp only [List.length_cons]; omega, by simp, by simp [NumOK],
+          tokX_plain _ _ _ _ (by simp [Plain]) (by simp)⟩
       | [_], _, hn => simp [LS.next] at hn
     · exact emit1_spec _ _ _ s h (by simp) rfl rfl
   split
@@ -120,12 +168,17 @@ theorem getBracket_spec (s : LS) (h : s.src ≠ []) : StepSpec s (getBracket s) 
   · trivial
 
 theorem chop_spec (s s0 : LS) (n : Nat) (k : TK) (hn : 0 < n) (hle : n ≤ s.src.length) (hk : k ≠ .eol)
-    (hp : s.pos = s0.pos) (hs : s.src = s0.src) (hnum : k ≠ .number := by first | simp | (split <;> simp)) :
+    (hp : s.pos = s0.pos) (hs : s.src = s0.src) (hnum : k ≠ .number := by first | simp | (split <;> simp))
+    (hplain : Plain k := by first | simp [Plain] | (split <;> simp [Plain])) :
     StepSpec s0 (chopTok k n s0.pos s) := by
   simp only [chopTok, LS.chop, hle, if_true, bind, Outcome.bind, pure, StepSpec]
-  refine ⟨rfl, rfl, ?_, ?_, hk, fun h => absurd h hnum⟩
+  refine ⟨rfl, rfl, ?_, ?_, hk, fun h => absurd h hnum, tokX_plain _ _ _ _ hplain ?_⟩
   · simp only [LS.total, List.length_drop]; rw [hp, ← hs]; omega
   · simp only [List.length_drop]; rw [← hs]; omega
+  · intro h0
+    have := congrArg List.length h0
+    simp only [List.length_take, List.length_nil] at this
+    omega
 
 theorem len_pos_of_ne {α} (l : List α) (h : l ≠ []) : 1 ≤ l.length := by
   cases l with
@@ -159,7 +212,14 @@ theorem getNumeric_spec (s : LS) : StepSpec s (getNumeric s) := by
     have hpr := chopWhile_progress s isDigit hne hd
     split
     · rename_i hlt
-      refine ⟨rfl, rfl, hsp.1, hpr, by simp, fun _ => ⟨?_, hlt⟩⟩
+      have hval : (s.chopWhile isDigit).1 ≠ [] := by
+        intro h0
+        have h4 := hsp.2.2.2
+        rw [h0] at h4
+        have : (s.chopWhile isDigit).2.total = s.total := hsp.1
+        simp only [LS.total, List.length_nil, Nat.add_zero] at h4 this
+        omega
+      refine ⟨rfl, rfl, hsp.1, hpr, by simp, fun _ => ⟨?_, hlt⟩, tokX_number _ _ _ hval List.all_takeWhile⟩
       intro h0
       have h0' : (s.chopWhile isDigit).1 = [] := h0
       have h4 := hsp.2.2.2
@@ -174,8 +234,16 @@ theorem getNumeric_spec (s : LS) : StepSpec s (getNumeric s) := by
       omega
 
 theorem whileTok_spec (s : LS) (p : Nat → Bool) (k : TK) (hk : k ≠ .eol) (h : s.src ≠ []) (hp : p s.cur = true)
-    (hn : k ≠ .number := by simp) : StepSpec s (whileTok k p s) :=
-  ⟨rfl, rfl, (chopWhile_spec s p).1, chopWhile_progress s p h hp, hk, fun h => absurd h hn⟩
+    (hn : k ≠ .number := by simp) (hplain : Plain k := by simp [Plain]) : StepSpec s (whileTok k p s) :=
+  ⟨rfl, rfl, (chopWhile_spec s p).1, chopWhile_progress s p h hp, hk, fun h => absurd h hn,
+   tokX_plain _ _ _ _ hplain (by
+     intro h0
+     have h4 := (chopWhile_spec s p).2.2.2
+     have h5 := chopWhile_progress s p h hp
+     have h6 := (chopWhile_spec s p).1
+     rw [h0] at h4
+     simp only [LS.total, List.length_nil, Nat.add_zero] at h4 h6
+     omega)⟩
 
 theorem getSpecialChar_spec (s : LS) (h : s.src ≠ []) : StepSpec s (getSpecialChar s) := by
   have h1 := len_pos_of_ne _ h
@@ -220,7 +288,7 @@ theorem getSpecialChar_spec (s : LS) (h : s.src ≠ []) : StepSpec s (getSpecial
     · rw [if_neg hf]; exact chop_spec _ s 1 _ (by omega) h1 (by simp) rfl rfl
   rw [if_neg c10]
   by_cases c11 : s.cur = 62
-  · rw [if_pos c11]; exact chop_spec _ s 1 _ (by omega) h1 (by split <;> simp) rfl rfl (by split <;> simp)
+  · rw [if_pos c11]; exact chop_spec _ s 1 _ (by omega) h1 (by split <;> simp) rfl rfl (by split <;> simp) (by split <;> simp [Plain])
   rw [if_neg c11]
   by_cases c12 : s.cur = 124
   · rw [if_pos c12]; exact chop_spec s s 1 _ (by omega) h1 (by simp) rfl rfl
@@ -281,19 +349,38 @@ theorem greek_upper_ne_zero (c : Nat) (h : (isGreek c || isUpper c) = true) : c 
   intro h'; subst h'; simp [isGreek, isUpper] at h
 
 theorem featMod_spec (c : Nat) (s1 : LS) :
-    ∃ m s2, featMod c s1 = .ok (m, s2) ∧ s2.total = s1.total ∧ s2.src.length ≤ s1.src.length ∧ s1.pos ≤ s2.pos := by
+    ∃ m s2, featMod c s1 = .ok (m, s2) ∧ s2.total = s1.total ∧ s2.src.length ≤ s1.src.length ∧ s1.pos ≤ s2.pos ∧
+      ((c = 43 ∨ c = 45 ∨ (isGreek c || isUpper c) = true) → ModOK m) := by
   unfold featMod
   by_cases hc : (c = 45 && (isGreek s1.cur || isUpper s1.cur)) = true
   · rw [if_pos hc]
     have hg : (isGreek s1.cur || isUpper s1.cur) = true := by
       simp only [Bool.and_eq_true] at hc; exact hc.2
     obtain ⟨s2, he, hpos, _, htot, hlen⟩ := advance_ok s1 (src_ne_of_cur s1 (greek_upper_ne_zero _ hg))
-    exact ⟨[45, s1.cur], s2, by simp only [he, bind, Outcome.bind, pure], htot, by omega, by omega⟩
+    exact ⟨[45, s1.cur], s2, by simp only [he, bind, Outcome.bind, pure], htot, by omega, by omega,
+      fun _ => Or.inr (Or.inr ⟨s1.cur, hg, Or.inr rfl⟩)⟩
   · rw [if_neg hc]
-    exact ⟨[c], s1, rfl, rfl, Nat.le_refl _, Nat.le_refl _⟩
+    refine ⟨[c], s1, rfl, rfl, Nat.le_refl _, Nat.le_refl _, fun h => ?_⟩
+    rcases h with h | h | h
+    · exact Or.inl (by rw [h])
+    · exact Or.inr (Or.inl (by rw [h]))
+    · exact Or.inr (Or.inr ⟨c, h, Or.inl rfl⟩)
+
+theorem featureMatch_mem (buf : Text) (k w : String) (h : featureMatch buf = some (k, w)) : ∃ names, (k, w, names) ∈ Gen.featNames := by
+  unfold featureMatch at h
+  match hf : Gen.featNames.find? (fun e => e.2.2.contains (toStr (buf.map lower))), h with
+  | some e, h =>
+    rw [hf] at h
+    simp only [Option.map_some, Option.some.injEq, Prod.mk.injEq] at h
+    have hm := List.mem_of_find?_eq_some hf
+    exact ⟨e.2.2, by rw [← h.1, ← h.2]; exact hm⟩
+  | none, h => rw [hf] at h; simp at h
+
+theorem modOK_ne_nil (m : Text) (h : ModOK m) : m ≠ [] := by
+  rcases h with h | h | ⟨c, _, h | h⟩ <;> (rw [h]; simp)
 
 theorem featFinish_spec (s s4 : LS) (m buf : Text) (htot : s4.total = s.total) (hlen : s4.src.length < s.src.length)
-    (hpos : s.pos ≤ s4.pos) : StepSpec s (featFinish s.pos m buf s4) := by
+    (hpos : s.pos ≤ s4.pos) (hm : ModOK m) : StepSpec s (featFinish s.pos m buf s4) := by
   have hle : s4.pos ≤ s.total := by rw [← htot]; simp only [LS.total]; omega
   unfold featFinish
   split
@@ -302,18 +389,33 @@ theorem featFinish_spec (s s4 : LS) (m buf : Text) (htot : s4.total = s.total) (
     · simp only [StepSpec, ErrIn]; omega
     · split
       · simp only [StepSpec, ErrIn, LS.total]; omega
-      · exact ⟨rfl, rfl, htot, hlen, by simp, by simp [NumOK]⟩
+      · rename_i kind variant hfm _
+        exact ⟨rfl, rfl, htot, hlen, by simp, by simp [NumOK],
+          tokX_feature _ _ _ _ _ (modOK_ne_nil m hm) (Or.inr ⟨featureMatch_mem buf kind variant hfm, hm⟩)⟩
 
 theorem getFeature_spec (s : LS) (h : s.src ≠ []) : StepSpec s (getFeature s) := by
   unfold getFeature
   split
   · trivial
-  · obtain ⟨s1, he, hpos, _, htot, hlen⟩ := advance_ok s h
-    obtain ⟨m, s2, hm, h1, h2, h3⟩ := featMod_spec s.cur s1
+  · rename_i hentry
+    have hc0 : s.cur = 43 ∨ s.cur = 45 ∨ (isGreek s.cur || isUpper s.cur) = true := by
+      by_cases h1 : s.cur = 43
+      · exact Or.inl h1
+      by_cases h2 : s.cur = 45
+      · exact Or.inr (Or.inl h2)
+      right; right
+      cases hgu : (isGreek s.cur || isUpper s.cur) with
+      | true => rfl
+      | false =>
+        exfalso; apply hentry
+        simp only [Bool.or_eq_false_iff] at hgu
+        simp [h1, h2, hgu.1, hgu.2]
+    obtain ⟨s1, he, hpos, _, htot, hlen⟩ := advance_ok s h
+    obtain ⟨m, s2, hm, h1, h2, h3, hmod⟩ := featMod_spec s.cur s1
     have ht := trimWs_spec s2
     obtain ⟨buf, s4, hf, g1, g2, g3⟩ := featLoop_spec (s2.trimWs.src.length + 1) s2.trimWs [] (by omega)
     simp only [he, hm, hf, bind, Outcome.bind]
-    exact featFinish_spec s s4 m buf (by omega) (by omega) (by omega)
+    exact featFinish_spec s s4 m buf (by omega) (by omega) (by omega) (hmod hc0)
 
 /-! ### `get_diacritic`, `get_comment`, `get_string` -/
 
@@ -322,7 +424,14 @@ theorem getDiacritic_spec (s : LS) (h : s.src ≠ []) : StepSpec s (getDiacritic
   split
   · trivial
   · split
-    · exact emit1_spec _ _ s s h (by simp) rfl rfl
+    · rename_i i hi
+      have hlt : i < Gen.diacritics.length := by
+        unfold diaIndex at hi
+        simp only at hi
+        split at hi
+        · cases hi; assumption
+        · cases hi
+      exact emit1_spec _ _ s s h (by simp) rfl rfl (by simp) (fun a b => tokX_diacritic i _ a b (by simp) hlt)
     · trivial
 
 theorem getComment_spec (s : LS) (h : s.src ≠ []) : StepSpec s (getComment s) := by
@@ -339,7 +448,7 @@ theorem getComment_spec (s : LS) (h : s.src ≠ []) : StepSpec s (getComment s) 
       obtain ⟨s2, he2, hpos2, _, htot2, hlen2⟩ := advance_ok s1 (src_ne_of_cur s1 (by omega))
       have hw := chopWhile_spec s2 (fun _ => true)
       simp only [he2, pure]
-      exact ⟨rfl, rfl, by omega, by omega, by simp, by simp [NumOK]⟩
+      exact ⟨rfl, rfl, by omega, by omega, by simp, by simp [NumOK], tokX_comment _ _ _⟩
 
 theorem isAlpha_ne_zero' (c : Nat) (h : isAlpha c = true) : c ≠ 0 := by
   intro h'; subst h'; simp [isAlpha, isUpper, isLower] at h
@@ -374,7 +483,17 @@ theorem getString_spec (s : LS) (h : s.src ≠ []) : StepSpec s (getString s) :=
       rw [hnum] at hn
       have hn : Good s3.trimWs num s5 := hn
       simp only [pure, StepSpec]
-      exact ⟨rfl, rfl, by have := hn.total_eq; omega, by have := hn.progress; omega, by simp, by simp [NumOK]⟩
+      have hnk : num.kind = .number := by
+        unfold getNumeric at hnum
+        split at hnum
+        · cases hnum
+        · split at hnum
+          · cases hnum; rfl
+          · cases hnum
+      have hv := hn.tok_ok
+      have hval : num.value ≠ [] := hv.1 (by rw [hnk]; simp) (by rw [hnk]; simp)
+      exact ⟨rfl, rfl, by have := hn.total_eq; omega, by have := hn.progress; omega, by simp, by simp [NumOK],
+        tokX_feature _ _ _ _ _ hval (Or.inl ⟨rfl, rfl, hval, hv.2.1 hnk⟩)⟩
     · have : s3.trimWs.pos ≤ s3.trimWs.total := by simp only [LS.total]; omega
       simp only [StepSpec, ErrIn]; omega
     · -- NumberTooBig from `get_numeric`: inside the line, after the start of this token
@@ -418,37 +537,46 @@ theorem amer_ne_zero (c : Nat) (t : Text) (h : amer c = some t) : c ≠ 0 := by
   intro h'; subst h'; simp [amer] at h
 
 theorem ipaLoop_spec : ∀ (fuel : Nat) (s : LS) (buf : Text), s.src.length < fuel →
-    ∃ buf' s', ipaLoop fuel s buf = .ok (buf', s') ∧ s'.total = s.total ∧ s'.src.length ≤ s.src.length ∧ s.pos ≤ s'.pos := by
+    ∃ buf' s', ipaLoop fuel s buf = .ok (buf', s') ∧ s'.total = s.total ∧ s'.src.length ≤ s.src.length ∧ s.pos ≤ s'.pos ∧
+      buf.length ≤ buf'.length := by
   intro fuel
   induction fuel with
   | zero => intro s buf h; omega
   | succ n ih =>
     intro s buf h
     -- one more round after advancing past a character that is known to exist
-    have step : ∀ (b : Text), s.src ≠ [] →
+    have step : ∀ (b : Text), s.src ≠ [] → buf.length ≤ b.length →
         ∃ buf' s', (do let s1 ← s.advance; ipaLoop n s1 b) = .ok (buf', s') ∧ s'.total = s.total ∧
-          s'.src.length ≤ s.src.length ∧ s.pos ≤ s'.pos := by
-      intro b hne
+          s'.src.length ≤ s.src.length ∧ s.pos ≤ s'.pos ∧ buf.length ≤ buf'.length := by
+      intro b hne hb
       obtain ⟨s1, he, hpos, _, htot, hlen⟩ := advance_ok s hne
-      obtain ⟨b', s', hr, h1, h2, h3⟩ := ih s1 b (by omega)
-      exact ⟨b', s', by simp only [he, bind, Outcome.bind, hr], by omega, by omega, by omega⟩
+      obtain ⟨b', s', hr, h1, h2, h3, h4⟩ := ih s1 b (by omega)
+      exact ⟨b', s', by simp only [he, bind, Outcome.bind, hr], by omega, by omega, by omega, by omega⟩
     unfold ipaLoop
     by_cases hp : ParseWord.isPrefixKey (buf ++ [asIpa s.cur]) = true
-    · rw [if_pos hp]; exact step _ (prefix_src_ne s buf hp)
+    · rw [if_pos hp]; exact step _ (prefix_src_ne s buf hp) (by simp)
     rw [if_neg hp]
     split
     · rename_i t ht
-      exact step _ (src_ne_of_cur s (amer_ne_zero _ _ ht))
+      exact step _ (src_ne_of_cur s (amer_ne_zero _ _ ht)) (by simp)
     by_cases hc : s.cur = 94
     · rw [if_pos hc]
       have hne : s.src ≠ [] := src_ne_of_cur s (by omega)
-      split; · exact step _ hne
-      split; · exact step _ hne
-      split; · exact step _ hne
-      split; · exact step _ hne
-      exact ⟨buf, s, rfl, rfl, Nat.le_refl _, Nat.le_refl _⟩
+      split; · exact step _ hne (by simp)
+      split; · exact step _ hne (by simp)
+      split; · exact step _ hne (Nat.le_refl _)
+      split; · exact step _ hne (Nat.le_refl _)
+      exact ⟨buf, s, rfl, rfl, Nat.le_refl _, Nat.le_refl _, Nat.le_refl _⟩
     · rw [if_neg hc]
-      exact ⟨buf, s, rfl, rfl, Nat.le_refl _, Nat.le_refl _⟩
+      exact ⟨buf, s, rfl, rfl, Nat.le_refl _, Nat.le_refl _, Nat.le_refl _⟩
+
+theorem ipaFirst_ne_nil (c : Nat) : ipaFirst c ≠ [] := by
+  unfold ipaFirst
+  split
+  · rename_i t ht
+    unfold amer at ht
+    split at ht <;> (try (cases ht; simp)) <;> simp at ht
+  · simp
 
 theorem getIpa_spec (s : LS) (h : s.src ≠ []) : StepSpec s (getIpa s) := by
   unfold getIpa
@@ -456,9 +584,15 @@ theorem getIpa_spec (s : LS) (h : s.src ≠ []) : StepSpec s (getIpa s) := by
   · trivial
   split
   · obtain ⟨s1, he, hpos, _, htot, hlen⟩ := advance_ok s h
-    obtain ⟨b', s', hr, h1, h2, h3⟩ := ipaLoop_spec (s1.src.length + 1) s1 (ipaFirst s.cur) (Nat.lt_succ_self _)
+    obtain ⟨b', s', hr, h1, h2, h3, h4⟩ := ipaLoop_spec (s1.src.length + 1) s1 (ipaFirst s.cur) (Nat.lt_succ_self _)
     simp only [he, bind, Outcome.bind, hr, pure]
-    exact ⟨rfl, rfl, by omega, by omega, by simp, by simp [NumOK]⟩
+    have hb : b' ≠ [] := by
+      intro h0; rw [h0] at h4
+      have := ipaFirst_ne_nil s.cur
+      cases hf : ipaFirst s.cur with
+      | nil => exact this hf
+      | cons _ _ => rw [hf] at h4; simp at h4
+    exact ⟨rfl, rfl, by omega, by omega, by simp, by simp [NumOK], tokX_cardinal _ _ _ hb⟩
   · trivial
 
 /-! ### `get_next_token` and `get_line` -/
@@ -475,7 +609,7 @@ def TokSpec (s0 : LS) : LRes (Token × LS) → Prop
   | .ok (t, s') =>
     s0.pos ≤ t.start ∧ t.start < t.stop ∧ s'.total = s0.total ∧
     (t.kind = .eol → t.start = s0.total ∧ t.stop = s0.total + 1) ∧
-    (t.kind ≠ .eol → t.stop = s'.pos ∧ s'.src.length < s0.src.length) ∧ NumOK t
+    (t.kind ≠ .eol → t.stop = s'.pos ∧ s'.src.length < s0.src.length) ∧ NumOK t ∧ TokX t
   | .err e => s0.pos ≤ e.start ∧ e.start ≤ e.stop ∧ e.stop ≤ s0.total + 1
   | .panic _ => False
   | .outOfFuel _ => False
@@ -489,7 +623,9 @@ theorem getNextToken_spec (s0 : LS) : TokSpec s0 (getNextToken s0) := by
     have hl : s0.trimWs.src.length = 0 := by simpa using he
     have : s0.trimWs.pos = s0.total := by have := ht.1; simp only [LS.total] at this ⊢; omega
     simp only [TokSpec]
-    refine ⟨by omega, by omega, ht.1, fun _ => ⟨this, by omega⟩, fun hk => absurd rfl hk, by simp [NumOK]⟩
+    refine ⟨by omega, by omega, ht.1, fun _ => ⟨this, by omega⟩, fun hk => absurd rfl hk, by simp [NumOK],
+      ⟨fun h _ => absurd rfl h, fun (h : TK.eol = TK.number) => TK.noConfusion h,
+       fun i (h : TK.eol = TK.diacritic i) => TK.noConfusion h, fun k w (h : TK.eol = TK.feature k w) => TK.noConfusion h⟩⟩
   · rw [if_neg he]
     have hne : s0.trimWs.src ≠ [] := by simpa using he
     have hspec : StepSpec s0.trimWs
@@ -517,7 +653,7 @@ theorem getNextToken_spec (s0 : LS) : TokSpec s0 (getNextToken s0) := by
       have hg : Good s0.trimWs t s' := hg
       have h1 := hg.start_eq; have h2 := hg.stop_eq; have h3 := hg.total_eq; have h4 := hg.progress
       have : s'.pos + s'.src.length = s0.trimWs.pos + s0.trimWs.src.length := by simpa only [LS.total] using h3
-      refine ⟨by omega, by omega, by omega, fun hk => absurd hk hg.not_eol, fun _ => ⟨h2, by omega⟩, hg.num_ok⟩
+      refine ⟨by omega, by omega, by omega, fun hk => absurd hk hg.not_eol, fun _ => ⟨h2, by omega⟩, hg.num_ok, hg.tok_ok⟩
     | .ok none, _ =>
       simp only [TokSpec]; omega
     | .err e, hg =>
@@ -532,7 +668,7 @@ def WellSpaced : Nat → Nat → List Token → Prop
 
 def LineSpec (s : LS) (acc : List Token) : LRes (List Token) → Prop
   | .ok res => ∃ new, res = acc ++ new ∧ WellSpaced s.pos s.total new ∧
-      (∃ t, new.getLast? = some t ∧ t.kind = .eol ∧ t.start = s.total ∧ t.stop = s.total + 1) ∧ ∀ t ∈ new, NumOK t
+      (∃ t, new.getLast? = some t ∧ t.kind = .eol ∧ t.start = s.total ∧ t.stop = s.total + 1) ∧ ∀ t ∈ new, NumOK t ∧ TokX t
   | .err e => s.pos ≤ e.start ∧ e.start ≤ e.stop ∧ e.stop ≤ s.total + 1
   | .panic _ => False
   | .outOfFuel _ => False
@@ -549,12 +685,12 @@ theorem lineLoop_spec : ∀ (fuel : Nat) (s : LS) (acc : List Token), s.src.leng
     match hg : getNextToken s, hs with
     | .ok (t, s'), hs =>
       simp only [TokSpec] at hs
-      obtain ⟨h1, h2, h3, h4, h5, h6⟩ := hs
+      obtain ⟨h1, h2, h3, h4, h5, h6, h7⟩ := hs
       simp only
       by_cases hk : t.kind = .eol
       · rw [if_pos hk]
         obtain ⟨e1, e2⟩ := h4 hk
-        exact ⟨[t], rfl, ⟨h1, h2, by omega, trivial⟩, ⟨t, rfl, hk, e1, e2⟩, fun t' ht' => by simp at ht'; rw [ht']; exact h6⟩
+        exact ⟨[t], rfl, ⟨h1, h2, by omega, trivial⟩, ⟨t, rfl, hk, e1, e2⟩, fun t' ht' => by simp at ht'; rw [ht']; exact ⟨h6, h7⟩⟩
       · rw [if_neg hk]
         obtain ⟨e1, e2⟩ := h5 hk
         have hrec := ih s' (acc ++ [t]) (by omega)
@@ -568,7 +704,7 @@ theorem lineLoop_spec : ∀ (fuel : Nat) (s : LS) (acc : List Token), s.src.leng
             | cons a b => simpa using hl1
           · intro t' ht'
             rcases List.mem_cons.mp ht' with rfl | hm
-            · exact h6
+            · exact ⟨h6, h7⟩
             · exact hnum t' hm
         | .err e, hrec =>
           simp only [LineSpec] at hrec ⊢
